@@ -743,6 +743,8 @@ class Interp:
             return a is b
         if isinstance(a, ClassVal) and isinstance(b, ClassVal):
             return a.cls is b.cls
+        if isinstance(a, Builtin) and isinstance(b, Builtin):
+            return a.name == b.name and a.recv is b.recv
         return a is b
 
     def _contains(self, container, item, node=None) -> bool:
@@ -1193,6 +1195,8 @@ class Interp:
                 return k
             if isinstance(k, Str):
                 return k
+            if isinstance(k, (ClassVal, Builtin, Lin, Tup)):
+                return k
             raise Undecided("dict key %r" % (k,))
         raise PyRaise("KeyError")
 
@@ -1204,6 +1208,18 @@ class Interp:
         if isinstance(k, Lin) and k.is_const() and k.const.denominator == 1:
             return int(k.const)
         raise Undecided("symbolic index %r" % (k,))
+
+    def _lazy(self, v):
+        """A Python iterator over v's items that consumes a one-shot iterator item by item."""
+        if isinstance(v, IterVal):
+            def pulls():
+                while True:
+                    try:
+                        yield v.pull()
+                    except StopIteration:
+                        return
+            return pulls()
+        return iter(self.iterate(v))
 
     def iterate(self, v, live=False) -> List:
         if isinstance(v, Lst):
@@ -1812,11 +1828,11 @@ class Interp:
             if n in ("set", "frozenset"):
                 return self._mkset(items)
             if n == "reversed":
-                return Lst(list(reversed(items)))
+                return IterVal(list(reversed(items)))
             return Lst(self._sort(items, kwargs.get("key"), kwargs.get("reverse")))
         if n == "enumerate":
             start = self.index(args[1]) if len(args) > 1 else (self.index(kwargs["start"]) if "start" in kwargs else 0)
-            return Lst([Tup([Lin.num(i), x]) for i, x in enumerate(self.iterate(args[0]), start)])
+            return IterVal(Tup([Lin.num(i), x]) for i, x in enumerate(self._lazy(args[0]), start))
         if n == "zip":
             handles = [a if isinstance(a, IterVal) else IterVal(self.iterate(a)) for a in args]
 
@@ -1889,10 +1905,10 @@ class Interp:
             raise Undecided("type(%r)" % (v,))
         if n == "filter":
             fnv = args[0]
-            return Lst([x for x in self.iterate(args[1]) if self.truth(x if fnv is None else self.call_value(fnv, [x], {}))])
+            return IterVal(x for x in self._lazy(args[1]) if self.truth(x if fnv is None else self.call_value(fnv, [x], {})))
         if n == "map":
-            cols = [self.iterate(a) for a in args[1:]]
-            return Lst([self.call_value(args[0], list(row), {}) for row in zip(*cols)])
+            cols = [self._lazy(a) for a in args[1:]]
+            return IterVal(self.call_value(args[0], list(row), {}) for row in zip(*cols))
         if n in ("math.floor", "math.ceil", "math.trunc") and isinstance(args[0], Lin) and args[0].is_const():
             import math as _m
             return Lin.num(getattr(_m, n.split(".")[1])(args[0].const))
@@ -1947,7 +1963,7 @@ class Interp:
             return d
         if n.startswith("list."):
             return self._list_method(n[5:], recv, args, kwargs, node)
-        if n.startswith("dict."):
+        if n.startswith("dict.") and recv is not None:
             return self._dict_method(n[5:], recv, args, kwargs, node)
         if n.startswith("str."):
             return self._str_method(n[4:], recv, args, kwargs, node)
